@@ -141,6 +141,7 @@ func runAntsMP(toks []string) string {
 
 	tasks := make([]ants.Task, len(specs))
 	returned := make([]bool, len(specs))
+	returned1 := make([]bool, len(specs))
 	for k := range specs {
 		k := k
 		sp := specs[k]
@@ -225,11 +226,24 @@ func runAntsMP(toks []string) string {
 			logf(func() string { return fmt.Sprintf("S,%d,%d", k, now()) })
 			t := pool.Send(handler, opts...)
 			logf(func() string { tasks[k] = t; return fmt.Sprintf("SR,%d,%d", k, now()) })
+			// the sibling entry points of the Task interface: Get1() from its own goroutine, started before the
+			// task completes, and Err() right after Get2() returned
+			wg.Add(1)
+			go func() {
+				defer wg.Done()
+				v1 := t.Get1()
+				logf(func() string {
+					returned1[k] = true
+					return fmt.Sprintf("G1,%d,%d,%s", k, now(), showVal(v1))
+				})
+			}()
 			v, e := t.Get2()
 			logf(func() string {
 				returned[k] = true
 				return fmt.Sprintf("G,%d,%d,%s,%s", k, now(), showVal(v), showErr(e))
 			})
+			e2 := t.Err()
+			logf(func() string { return fmt.Sprintf("ER,%d,%d,%s", k, now(), showErr(e2)) })
 		}()
 	}
 	allDone := make(chan struct{})
@@ -245,8 +259,11 @@ func runAntsMP(toks []string) string {
 	for k := range specs {
 		k := k
 		mu.Lock()
-		ok, t := returned[k], tasks[k]
+		ok, ok1, t := returned[k], returned1[k], tasks[k]
 		mu.Unlock()
+		if t != nil && !ok1 {
+			logf(func() string { return fmt.Sprintf("HANG1,%d", k) })
+		}
 		if !ok {
 			logf(func() string { return fmt.Sprintf("HANG,%d", k) })
 			continue
